@@ -15,6 +15,7 @@ import (
 	"sort"
 	"strconv"
 	"strings"
+	"time"
 
 	connect "github.com/bufbuild/connect-go"
 	"google.golang.org/protobuf/proto"
@@ -1982,6 +1983,360 @@ func statusBeforeEncodingProbe(c *Ctx) {
 	}
 }
 
+// recoverPassThroughProbe: a handler with WithRecover that *returns* an error (nothing panics):
+// the recovery function has no part in it, the client gets the handler's error - code, message,
+// metadata - in every protocol and for every streaming kind (round 9, C02-mk).
+func recoverPassThroughProbe(c *Ctx) {
+	for _, proto := range []string{"connect", "grpc", "grpcweb"} {
+		for _, kind := range []string{"unary", "server", "client", "bidi"} {
+			for _, recovered := range []string{"error", "nil"} {
+				calls := 0
+				rec := connect.WithRecover(func(context.Context, connect.Spec, http.Header, any) error {
+					calls++
+					if recovered == "nil" {
+						return nil
+					}
+					return connect.NewError(connect.CodeInternal, errors.New("recovered"))
+				})
+				fail := func() error {
+					e := connect.NewError(connect.CodeFailedPrecondition, errors.New("not ready"))
+					e.Meta().Set("X-Why", "w1")
+					return e
+				}
+				opts := []connect.HandlerOption{connect.WithCodec(rawCodec{"raw"}), rec}
+				var h http.Handler
+				switch kind {
+				case "unary":
+					h = connect.NewUnaryHandler("/s/m", func(ctx context.Context, r *connect.Request[[]byte]) (*connect.Response[[]byte], error) {
+						return nil, fail()
+					}, opts...)
+				case "server":
+					h = connect.NewServerStreamHandler("/s/m", func(ctx context.Context, r *connect.Request[[]byte], s *connect.ServerStream[[]byte]) error {
+						_ = s.Send(&[]byte{1})
+						return fail()
+					}, opts...)
+				case "client":
+					h = connect.NewClientStreamHandler("/s/m", func(ctx context.Context, s *connect.ClientStream[[]byte]) (*connect.Response[[]byte], error) {
+						for s.Receive() {
+						}
+						return nil, fail()
+					}, opts...)
+				default:
+					h = connect.NewBidiStreamHandler("/s/m", func(ctx context.Context, s *connect.BidiStream[[]byte, []byte]) error {
+						for {
+							if _, err := s.Receive(); err != nil {
+								break
+							}
+						}
+						return fail()
+					}, opts...)
+				}
+				desc := fmt.Sprintf("%s %s handler with WithRecover (recovery function returns %s) returns failed_precondition with metadata; nothing panics", proto, kind, recovered)
+				c.Begin(desc)
+				c.Count("recover-pass-through-probe")
+				got := safely(func() string {
+					v := callClient(proto, kind, &inprocClient{h: h}, nil, [][]byte{{1}})
+					if v.err == nil {
+						return fmt.Sprintf("success (recovery function called %d times)", calls)
+					}
+					var ce *connect.Error
+					if !errors.As(v.err, &ce) {
+						return "uncoded " + v.err.Error()
+					}
+					return fmt.Sprintf("code=%s message=%q X-Why=%q recover-calls=%d", ce.Code(), ce.Message(), ce.Meta().Values("X-Why"), calls)
+				})
+				if want := `code=failed_precondition message="not ready" X-Why=["w1"] recover-calls=0`; got != want {
+					c.Fail("rt-error-with-recover", desc, got, "the handler's error must reach the client as it is: "+want)
+				}
+			}
+		}
+	}
+}
+
+// grpcPrefixedMetadataProbe: error metadata under keys that start with Grpc- but are not the
+// protocol's own three (Grpc-Retry-Pushback-Ms is a standard one applications set): every
+// key/value the handler attached arrives, in every protocol (round 9, C02-ml).
+func grpcPrefixedMetadataProbe(c *Ctx) {
+	for _, proto := range []string{"connect", "grpc", "grpcweb"} {
+		for _, kind := range []string{"unary", "server"} {
+			for _, after := range []bool{false, true} {
+				if after && kind == "unary" {
+					continue
+				}
+				fail := func() error {
+					e := connect.NewError(connect.CodeUnavailable, errors.New("try later"))
+					e.Meta().Set("Grpc-Retry-Pushback-Ms", "1500")
+					e.Meta().Add("Grpc-Trace-Id", "abc")
+					e.Meta().Add("Grpc-Trace-Id", "def")
+					return e
+				}
+				var h http.Handler
+				if kind == "unary" {
+					h = connect.NewUnaryHandler("/s/m", func(ctx context.Context, r *connect.Request[[]byte]) (*connect.Response[[]byte], error) {
+						return nil, fail()
+					}, connect.WithCodec(rawCodec{"raw"}))
+				} else {
+					h = connect.NewServerStreamHandler("/s/m", func(ctx context.Context, r *connect.Request[[]byte], s *connect.ServerStream[[]byte]) error {
+						if after {
+							_ = s.Send(&[]byte{1})
+						}
+						return fail()
+					}, connect.WithCodec(rawCodec{"raw"}))
+				}
+				desc := fmt.Sprintf("%s %s handler (message sent first=%v) returns unavailable with metadata Grpc-Retry-Pushback-Ms and two values of Grpc-Trace-Id", proto, kind, after)
+				c.Begin(desc)
+				c.Count("grpc-prefixed-metadata-probe")
+				got := safely(func() string {
+					v := callClient(proto, kind, &inprocClient{h: h}, nil, [][]byte{{1}})
+					var ce *connect.Error
+					if !errors.As(v.err, &ce) {
+						return fmt.Sprintf("no coded error: %v", v.err)
+					}
+					return fmt.Sprintf("code=%s pushback=%q trace=%q", ce.Code(), ce.Meta().Values("Grpc-Retry-Pushback-Ms"), ce.Meta().Values("Grpc-Trace-Id"))
+				})
+				if want := `code=unavailable pushback=["1500"] trace=["abc" "def"]`; got != want {
+					c.Fail("rt-error-meta-grpc-prefixed", desc, got, "every key/value the handler attached to the error must reach the client: "+want)
+				}
+			}
+		}
+	}
+}
+
+// noResponseProbe: the peer accepts the request and closes the connection without an answer;
+// net/http reports `Post …: EOF` - an error that *wraps* io.EOF. That is a failed call in every
+// protocol and kind, never an empty success (round 9, C04-mk).
+func noResponseProbe(c *Ctx) {
+	for _, proto := range []string{"connect", "grpc", "grpcweb"} {
+		for _, kind := range []string{"unary", "server", "client"} {
+			for _, limit := range []int{0, 64} {
+				desc := fmt.Sprintf("%s %s call (read limit %d): the transport fails with an error wrapping io.EOF and no response", proto, kind, limit)
+				c.Begin(desc)
+				c.Count("no-response-probe")
+				got := safely(func() string {
+					hc := failingDo{err: &url.Error{Op: "Post", URL: "http://h/s/m", Err: io.EOF}}
+					v := callClient(proto, kind, hc, nil, [][]byte{{1}}, connect.WithReadMaxBytes(limit))
+					if v.err == nil {
+						return fmt.Sprintf("success with %d message(s)", len(v.msgs))
+					}
+					var ce *connect.Error
+					if !errors.As(v.err, &ce) {
+						return "uncoded: " + v.err.Error()
+					}
+					return "failed: " + ce.Code().String()
+				})
+				if !strings.HasPrefix(got, "failed: ") {
+					c.Fail("term-no-response-success", desc, got, "a call that got no response at all must fail with a coded error")
+				}
+			}
+		}
+	}
+}
+
+// sendAfterCutProbe: the response of a Connect stream ends without its end-of-stream envelope
+// while the request side is still open and nobody reads the request any more. Receive reports
+// the protocol error; a Send after that must return (with an error wrapping io.EOF), not block
+// on a pipe that nothing drains (round 9, C04-ml).
+func sendAfterCutProbe(c *Ctx) {
+	for _, proto := range []string{"connect", "grpc", "grpcweb"} {
+		desc := proto + " bidi call: one response message, then the body ends without a terminator; the peer has stopped reading the request; Send after the failed Receive"
+		c.Begin(desc)
+		c.Count("send-after-cut-probe")
+		got := safely(func() string {
+			hc := &cutNoDrainClient{header: http.Header{"Content-Type": {ctFor(proto, "bidi", "raw")}}, body: frame(0, []byte{1})}
+			opts := []connect.ClientOption{connect.WithCodec(rawCodec{"raw"})}
+			if proto == "grpc" {
+				opts = append(opts, connect.WithGRPC())
+			} else if proto == "grpcweb" {
+				opts = append(opts, connect.WithGRPCWeb())
+			}
+			cl := connect.NewClient[[]byte, []byte](hc, "http://h/s/m", opts...)
+			st := cl.CallBidiStream(context.Background())
+			if err := st.Send(&[]byte{1}); err != nil {
+				return "first send: " + err.Error()
+			}
+			if _, err := st.Receive(); err != nil {
+				return "first receive: " + err.Error()
+			}
+			_, rerr := st.Receive()
+			done := make(chan error, 1)
+			go func() { done <- st.Send(&[]byte{2}) }()
+			select {
+			case serr := <-done:
+				_ = st.CloseRequest()
+				_ = st.CloseResponse()
+				return fmt.Sprintf("receive=%s send-wraps-eof=%v", codeOrOKp(rerr), serr != nil && errors.Is(serr, io.EOF))
+			case <-time.After(2 * time.Second):
+				hc.release()
+				<-done
+				return fmt.Sprintf("receive=%s, then Send blocked for 2 s", codeOrOKp(rerr))
+			}
+		})
+		if got != "receive=internal send-wraps-eof=true" {
+			c.Fail("term-send-after-cut", desc, got, "after the response ended without its terminator the call has failed: Receive says so and a later Send returns an error wrapping io.EOF instead of blocking")
+		}
+	}
+}
+
+// cutNoDrainClient answers with a fixed body and reads exactly one write of the request body.
+type cutNoDrainClient struct {
+	header http.Header
+	body   []byte
+	req    *http.Request
+}
+
+func (c *cutNoDrainClient) Do(req *http.Request) (*http.Response, error) {
+	c.req = req
+	buf := make([]byte, 5)
+	_, _ = io.ReadFull(req.Body, buf) // the prefix of the first message
+	n := int(buf[1])<<24 | int(buf[2])<<16 | int(buf[3])<<8 | int(buf[4])
+	_, _ = io.ReadFull(req.Body, make([]byte, n))
+	return &http.Response{StatusCode: 200, Status: "200 OK", Proto: "HTTP/2.0", ProtoMajor: 2, Header: c.header, Body: io.NopCloser(bytes.NewReader(c.body)), Request: req}, nil
+}
+
+func (c *cutNoDrainClient) release() {
+	go func() { _, _ = io.Copy(io.Discard, c.req.Body) }()
+}
+
+// non200GrpcStatusProbe: a non-200 answer to a gRPC or gRPC-Web call that also carries a
+// Grpc-Status *header* - "0", "00", garbage, out of range - or broken details / an unknown
+// encoding: whatever those say, a non-200 response is no gRPC response; the call fails with the
+// code of the HTTP status, never succeeds, never takes `internal` from a parser (round 9, C06-mk).
+func non200GrpcStatusProbe(c *Ctx) {
+	for _, proto := range []string{"grpc", "grpcweb"} {
+		for _, kind := range []string{"unary", "server", "bidi"} {
+			for _, tc := range []struct {
+				status int
+				want   string
+			}{{503, "unavailable"}, {401, "unauthenticated"}, {404, "unimplemented"}, {429, "unavailable"}} {
+				for _, extra := range []http.Header{
+					{"Grpc-Status": {"0"}}, {"Grpc-Status": {"00"}}, {"Grpc-Status": {"not-a-number"}}, {"Grpc-Status": {"-1"}}, {"Grpc-Status": {"99999999999"}},
+					{"Grpc-Status": {"0"}, "Grpc-Message": {"fine"}}, {"Grpc-Status": {"8"}, "Grpc-Status-Details-Bin": {"!!!"}}, {"Grpc-Encoding": {"br"}}, {"Grpc-Status": {"0"}, "Grpc-Encoding": {"br"}},
+				} {
+					h := http.Header{"Content-Type": {ctFor(proto, kind, "raw")}}
+					for k, v := range extra {
+						h[k] = v
+					}
+					desc := fmt.Sprintf("%s %s call answered %d with headers %v and an empty body", proto, kind, tc.status, extra)
+					c.Begin(desc)
+					c.Count("non200-grpc-status-probe")
+					got := safely(func() string {
+						v := callClient(proto, kind, &staticClient{status: tc.status, header: h}, nil, [][]byte{{1}})
+						if v.err == nil {
+							return "success"
+						}
+						var ce *connect.Error
+						if !errors.As(v.err, &ce) {
+							return "uncoded: " + v.err.Error()
+						}
+						return ce.Code().String()
+					})
+					// a *valid, non-zero* Grpc-Status is a protocol-level error and may be believed
+					if extra.Get("Grpc-Status") == "8" {
+						continue
+					}
+					if got != tc.want {
+						c.Fail("client-non200-grpc-status", desc, got, "a non-200 response that carries no valid protocol-level error takes its code from the HTTP status: "+tc.want)
+					}
+				}
+			}
+		}
+	}
+}
+
+// emptyWebTrailerProbe: a gRPC-Web trailers frame of length zero (80 00 00 00 00), alone or after
+// messages: no panic, a coded error (round 9, C06-ml).
+func emptyWebTrailerProbe(c *Ctx) {
+	for _, kind := range []string{"unary", "server", "client", "bidi"} {
+		for _, body := range [][]byte{{0x80, 0, 0, 0, 0}, append(frame(0, []byte{1}), 0x80, 0, 0, 0, 0), append(append(frame(0, []byte{1}), frame(0, []byte{2})...), 0x81, 0, 0, 0, 0)} {
+			desc := fmt.Sprintf("grpcweb %s call answered 200 with body %x", kind, body)
+			c.Begin(desc)
+			c.Count("empty-web-trailer-probe")
+			got := safely(func() string {
+				v := callClient("grpcweb", kind, &staticClient{status: 200, header: http.Header{"Content-Type": {ctFor("grpcweb", kind, "raw")}}, body: body}, nil, [][]byte{{1}})
+				if v.err == nil {
+					return "success"
+				}
+				var ce *connect.Error
+				if !errors.As(v.err, &ce) {
+					return "uncoded: " + v.err.Error()
+				}
+				return "failed: " + ce.Code().String()
+			})
+			if !strings.HasPrefix(got, "failed: ") || got == "failed: ok" {
+				c.Fail("client-empty-web-trailer", desc, got, "a trailers frame without a status is a protocol error: a coded failure, not a panic and not success")
+			}
+		}
+	}
+}
+
+// paddedBinaryProbe: values under -Bin keys are the application's strings: padded base64 (which
+// DecodeBinaryHeader accepts and other stacks emit) arrives as it was written, in trailers and in
+// error metadata (round 9, C11-ml).
+func paddedBinaryProbe(c *Ctx) {
+	for _, proto := range []string{"connect", "grpc", "grpcweb"} {
+		for _, kind := range []string{"unary", "server"} {
+			for _, failing := range []bool{false, true} {
+				set := func(rt http.Header) error {
+					rt.Set("X-Data-Bin", "AQ==")
+					rt.Add("X-Many-Bin", "AQI=")
+					rt.Add("X-Many-Bin", "AQID")
+					if failing {
+						e := connect.NewError(connect.CodeAborted, errors.New("stop"))
+						e.Meta().Set("X-Err-Bin", "/w==")
+						return e
+					}
+					return nil
+				}
+				var h http.Handler
+				if kind == "unary" {
+					h = connect.NewUnaryHandler("/s/m", func(ctx context.Context, r *connect.Request[[]byte]) (*connect.Response[[]byte], error) {
+						res := connect.NewResponse(&[]byte{1})
+						if err := set(res.Trailer()); err != nil {
+							e := err.(*connect.Error)
+							for k, v := range res.Trailer() {
+								e.Meta()[k] = v
+							}
+							return nil, e
+						}
+						return res, nil
+					}, connect.WithCodec(rawCodec{"raw"}))
+				} else {
+					h = connect.NewServerStreamHandler("/s/m", func(ctx context.Context, r *connect.Request[[]byte], s *connect.ServerStream[[]byte]) error {
+						_ = s.Send(&[]byte{1})
+						return set(s.ResponseTrailer())
+					}, connect.WithCodec(rawCodec{"raw"}))
+				}
+				desc := fmt.Sprintf("%s %s handler (failing=%v) sets padded base64 under -Bin keys in trailers and error metadata", proto, kind, failing)
+				c.Begin(desc)
+				c.Count("padded-binary-probe")
+				got := safely(func() string {
+					v := callClient(proto, kind, &inprocClient{h: h}, nil, [][]byte{{1}})
+					src := v.trailer
+					extra := ""
+					if failing {
+						var ce *connect.Error
+						if !errors.As(v.err, &ce) {
+							return fmt.Sprintf("no coded error: %v", v.err)
+						}
+						src = ce.Meta()
+						extra = fmt.Sprintf(" err=%q", ce.Meta().Values("X-Err-Bin"))
+					} else if v.err != nil {
+						return "failed: " + v.err.Error()
+					}
+					return fmt.Sprintf("data=%q many=%q", src.Values("X-Data-Bin"), src.Values("X-Many-Bin")) + extra
+				})
+				want := `data=["AQ=="] many=["AQI=" "AQID"]`
+				if failing {
+					want += ` err=["/w=="]`
+				}
+				if got != want {
+					c.Fail("rt-trailer-padded-bin", desc, got, "values under -Bin keys arrive unchanged: "+want)
+				}
+			}
+		}
+	}
+}
+
 func extraProbes(c *Ctx) {
 	metadataProbes(c)
 	failingCompressorProbe(c, "wire-error-mislabelled")
@@ -2000,6 +2355,13 @@ func extraProbes(c *Ctx) {
 	midStreamAccessorProbe(c)
 	repeatedReceiveProbe(c)
 	statusBeforeEncodingProbe(c)
+	recoverPassThroughProbe(c)
+	grpcPrefixedMetadataProbe(c)
+	noResponseProbe(c)
+	sendAfterCutProbe(c)
+	non200GrpcStatusProbe(c)
+	emptyWebTrailerProbe(c)
+	paddedBinaryProbe(c)
 	// (1) every error a client API returns can be inspected as a Connect error — including the one
 	// from closing a response whose body fails while being drained
 	for _, proto := range []string{"connect", "grpc", "grpcweb"} {
